@@ -50,6 +50,21 @@ def check_bases(rep: Report, ix):
             rep.oblige(f"{tag}:basis_rotation right-handed (det = +1)", ok, str(sp.simplify(R.det())))
             if not ok:
                 rep.violation("C19.right-handed", f"{ref}._basis_rotation::det", f"{tag}: det R = `{sp.simplify(R.det())}`, expected +1")
+            # the basis is defined wherever the mapping is: no division by a quantity that vanishes at an admissible point
+            map_divs = [d for d, _ in c.divisors_of("_pos_to_cart")]
+            rot_divs = c.divisors_of("_basis_rotation")
+            bad_divs = []
+            seen_divs = set()
+            for dv, line in rot_divs:
+                if (str(dv), line) in seen_divs:
+                    continue
+                seen_divs.add((str(dv), line))
+                why = divisor_may_vanish(dv, map_divs, c.q)
+                if why:
+                    bad_divs.append((str(dv), why, line))
+            rep.oblige(f"{tag}:basis_rotation defined wherever the mapping is ({len(rot_divs)} divisions)", not bad_divs, bad_divs)
+            for n, (dv, why, line) in enumerate(bad_divs[:2]):
+                rep.violation("C19.basis-defined", f"{ref}._basis_rotation::divisor{n}", f"{tag}: the basis is computed with a division by `{dv}`, {why}; the mapping itself is regular there, so the local basis (and every vector conversion through it) is undefined (0/0 or infinite) at an admissible point", line=line)
             # rows of R are the normalised columns of the Jacobian
             h = c.scale_factors()
             bad = []
@@ -470,6 +485,53 @@ def rotation_consumers(rep: Report, ix):
                     line=st.lineno,
                 )
     rep.note(f"hand-written consumers of the rotation matrix judged: {n}")
+
+
+# closed coordinate domains: values at which a coordinate symbol of that name may sit on the boundary
+_DOMAIN_EDGE = {"r": [0], "theta": [0, sp.pi], "sigma": [0, sp.pi], "phi": [0], "tau": [0], "x": [0], "y": [0], "z": [0]}
+
+
+def divisor_may_vanish(d, mapping_divisors, coords):
+    """None if the divisor `d` cannot vanish at an admissible point where the mapping is regular;
+    otherwise the reason.  Decided per factor: a power of a coordinate vanishes on the edge of its
+    closed domain; a factor that is a constant multiple of a divisor of the mapping shares the
+    mapping's own singularity; anything else is outside the decidable class (analysis error)."""
+    mfactors = []
+    for m in mapping_divisors:
+        for f in sp.Mul.make_args(sp.factor(m)):
+            b = f.as_base_exp()[0]
+            if not b.is_number:
+                mfactors.append(b)
+    for f in sp.Mul.make_args(sp.factor(d)):
+        b = f.as_base_exp()[0]
+        if b.is_number:
+            continue
+        if any(sp.simplify(b / m).is_number for m in mfactors):
+            continue  # singular exactly where the mapping is
+        if isinstance(b, sp.Symbol) and b in coords:
+            edge = _DOMAIN_EDGE.get(b.name)
+            if edge is None:
+                raise AnalysisError(f"coordinate {b} has no declared closed domain")
+            if 0 in edge:
+                return f"which vanishes at {b} = 0"
+            continue
+        # a composite factor: look for a zero on the edges of the closed domain
+        syms = sorted(b.free_symbols, key=str)
+        import itertools as _it
+
+        choices = [[(q, v) for v in _DOMAIN_EDGE.get(q.name, []) + [sp.Rational(3, 7)]] for q in syms]
+        for combo in _it.product(*choices):
+            sub = dict(combo)
+            try:
+                val = sp.simplify(b.subs(sub))
+            except Exception:  # noqa: BLE001
+                continue
+            if val == 0 and not any(sp.simplify(m.subs(sub)) == 0 for m in mfactors):
+                return f"whose factor `{b}` vanishes at {', '.join(f'{k} = {v}' for k, v in sub.items())}"
+        if b.is_positive or b.is_negative:
+            continue
+        raise AnalysisError(f"cannot decide whether the divisor factor `{b}` vanishes on the coordinate domain")
+    return None
 
 
 def check(tier: str) -> Report:
